@@ -14,7 +14,7 @@ P("RoundTrip/n1", "H_pforRoundTrip", None, ["C02", "C03", "C16"], defines=["PFOR
   bounded="arrays of exactly 1 value (all 64-bit values, thresholds 90/95/99); loops unwound 10 times with unwinding assertions", note=QS)
 for t in (90, 95, 99):
     P("RoundTrip/n2/t%d" % t, "H_pforRoundTrip", None, ["C02", "C03", "C16"], defines=["PFOR_N=2", "PFOR_T=%d" % t], unwind=10, functions=F_RT,
-      tier="quick" if t == 95 else "thorough",
+      tier="thorough",   # ~21 min each
       bounded="arrays of exactly 2 values (all 64-bit values), threshold %d; loops unwound 10 times with unwinding assertions" % t, note=QS)
 P("OOM/RoundTrip/n1", "H_pforRoundTrip", None, ["C18"], defines=["PFOR_N=1", "PFOR_OOM=1"], unwind=10,
   malloc_may_fail=True, flags=["--memory-leak-check"], functions=["varintPFORComputeThreshold", "varintPFOREncode"],
